@@ -181,6 +181,7 @@ RULES = {
     "migrate_shared_memo": fd(m=I, ns=NSSEL, unify=st.sampled_from([True, True, False]), extra=st.lists(LBL, min_size=0, max_size=2),
                               order=B, own=st.integers(0, 2), src=st.sampled_from([1, 4, 1, 4, 0, 2, 3, 5, 6]),
                               rows=st.lists(LBL, min_size=1, max_size=4), partners=B, how=HOW),
+    "ns_clear_and_repair": fd(n=I, how=I),
     "rename_taxon": fd(n=I, k=I, l=LBL, mode=st.integers(0, 2)),
 }
 
@@ -563,6 +564,7 @@ class Interp(object):
             V(n is not None, "taxon_dropped_from_slot", lambda: "slot with label %r lost its taxon" % l)
             V(id(n) in after_ids, "taxon_not_in_namespace", lambda: "taxon %r (label %r) of a member is not in the container's namespace %r" % (
                 n, n.label, [t.label for t in after]))
+            V(n in ns, "namespace_in_disagrees_with_iteration", "taxon listed when iterating the namespace but `in` says no")
             live.append((o, l, n))
         used_fresh = set(id(n) for _, _, n in live if id(n) not in pre_ids)
         if mode in ("unify", "nounify") and live and self.renamed:
@@ -662,9 +664,11 @@ class Interp(object):
         V(len(cur) == len(rec.slots) and all(x is y for x, y in zip(cur, rec.slots)), "untouched_tree_changed",
           lambda: "%s: node taxa were %r now %r" % (where, [getattr(t, "label", None) for t in rec.slots],
                                                   [getattr(t, "label", None) for t in cur]))
+        ids = set(id(x) for x in rec.ns)
         for t in cur:
-            V(t is None or t in rec.ns, "taxon_not_in_namespace",
+            V(t is None or id(t) in ids, "taxon_not_in_namespace",
               lambda: "%s: node taxon %r not in namespace %r" % (where, t.label, [x.label for x in rec.ns]))
+            V(t is None or t in rec.ns, "namespace_in_disagrees_with_iteration", "%s: taxon listed by iteration, `in` says no" % where)
 
     def check_all(self):
         V = self.V
@@ -2053,6 +2057,62 @@ class Interp(object):
         M.modified = self.stepno
         if len(self.tlists) < MAX_LISTS + 2:
             self.tlists.append(LRec(tl, X, [TRec(tree, X, new_slots, self.stepno)], self.stepno))
+
+    # -- clearing a namespace that is still in use, then repairing its users -------------------------------------------
+    def op_ns_clear_and_repair(self, a):
+        """ns.clear() while tree lists / matrices / loose trees still refer to its taxa, then the documented repair on every
+        user: update_taxon_namespace() (the very same Taxon objects become members again) or
+        reconstruct_taxon_namespace(unify_taxa_by_label=False) (every referenced taxon, none of which is a member any more,
+        is replaced by a new member with the same label).  Membership is judged by iterating the namespace; `in` must agree."""
+        recs = [r for r in self.nss.values() if len(r.taxa)
+                and not any(A.ns is r.ns and A.trees for A in self.tas)]
+        if not recs:
+            return self.skip("no_namespace")
+        r = recs[a["n"] % len(recs)]
+        X = r.ns
+        users = ([("list", L) for L in self.tlists if L.ns is X] + [("matrix", M) for M in self.mats if M.ns is X]
+                 + [("tree", T) for T in self.loose if T.ns is X])
+        old_members = list(r.taxa)
+        self.lib(X.clear)
+        self.V(len(X) == 0 and list(X) == [], "namespace_clear", "namespace not empty after clear()")
+        self.V(not any(t in X for t in old_members), "namespace_in_disagrees_with_iteration",
+               "after clear() the namespace is empty when iterated but `in` still reports old taxa as members")
+        self.resnap(X)
+        how = a["how"]
+        self.ctx.cls("ns_clear:users_%s" % ("0" if not users else "1" if len(users) == 1 else "2+"))
+        for kind, rec in users:
+            mode = "update" if how % 2 == 0 else "reconstruct_nounify"
+            how //= 2
+            pre = list(X)
+            if kind == "list":
+                obj = rec.tl
+                old = [m.slots for m in rec.members]
+            elif kind == "tree":
+                obj = rec.tree
+                old = [rec.slots]
+            else:
+                obj = rec.m
+                old_rows = dict(rec.rows)
+            if mode == "update":
+                self.lib(obj.update_taxon_namespace)
+            else:
+                self.lib(obj.reconstruct_taxon_namespace, unify_taxa_by_label=False)
+            if kind == "matrix":
+                new_rows = self.read_rows(rec.m)
+                self.V(set(new_rows) == set(old_rows), "matrix_rows_silently_dropped_or_merged",
+                       lambda: "rows %r -> %r" % (sorted(old_rows), sorted(new_rows)))
+                pairs = [(o, o.label, new_rows[c]) for c, o in old_rows.items()]
+                rec.rows = new_rows
+            else:
+                trecs = rec.members if kind == "list" else [rec]
+                pairs = []
+                for m, o in zip(trecs, old):
+                    m.slots = self.slots(m.tree)
+                    pairs.extend(self.pairs_of(o, m.slots))
+            self.check_mapping(pairs, X, pre, "add" if mode == "update" else "nounify")
+            self.ctx.cls("ns_clear_repair:%s:%s" % (kind, mode))
+            if kind != "tree":
+                rec.modified = self.stepno
 
     # -- taxon relabelling ---------------------------------------------------------------------------------------
     def op_rename_taxon(self, a):
